@@ -766,6 +766,15 @@ class X:
                     if t == "symidx":
                         return "(ISym (%s %s))" % ("SMv" if pre == "mv_" else "SMf", c), "iterm", b
             fail(e, "Symbol with this name pattern")
+        if name == "_gamma" and len(e.args) == 1 and not e.keywords and isinstance(e.args[0], ast.JoinedStr):
+            if not self.ctx.consts.get("@gamma_is_symbol"):
+                fail(e, "_gamma is not the caching wrapper of Symbol(name, INT) the translator knows")
+            js = e.args[0].values
+            if len(js) == 2 and isinstance(js[0], ast.Constant) and isinstance(js[1], ast.FormattedValue) and js[0].value in ("gamma-_", "gamma+_"):
+                c, t, b = self.tx(js[1].value, env)
+                if t == "int":
+                    return "(ISym (%s %s))" % ("SGm" if js[0].value == "gamma-_" else "SGp", c), "iterm", b
+            fail(e, "_gamma with this name pattern")
         if name == "Int" and len(e.args) == 1 and not e.keywords:
             c, t, b = self.tx(e.args[0], env)
             if t != "int":
@@ -1890,6 +1899,14 @@ RANKS = [("@ranks", "at_ranks", ("wdict", "optint"))]
 Z3_CONSTS = {"sat": ("true", "bool", []), "unsat": ("false", "bool", [])}
 
 WSET = ("set", "world")
+GAMMA_SRC = """
+def _gamma(name: str) -> FNode:
+    sym = _gamma_sym_cache.get(name)
+    if sym is None:
+        sym = Symbol(name, INT)
+        _gamma_sym_cache[name] = sym
+    return sym
+"""
 TARGETS = [
     dict(out="SrcCond", file="inference/conditional.py", requires=[], funcs=[
         Fn("make_A_then_B", "py_make_A_then_B", [("self", "cond")], cls="Conditional"),
@@ -2040,6 +2057,9 @@ def generate(repo):
             src = open(path).read()
             tree = ast.parse(src)
             consts = dict(tg.get("consts", {}))
+            # _gamma(name) must be exactly the caching wrapper around Symbol(name, INT)
+            want = ast.dump(ast.parse(GAMMA_SRC).body[0])
+            consts["@gamma_is_symbol"] = any(isinstance(x, ast.FunctionDef) and x.name == "_gamma" and ast.dump(x) == want for x in tree.body)
             Ctx.cond_class = tg.get("cond_class", "Conditional")
             for fn in tg["funcs"]:
                 table[(fn.cls + "." if fn.cls else "") + fn.name] = fn
